@@ -542,7 +542,7 @@ def run(chk: Check):
         'records of directories are compared by path and type only; `.gitignore` files as sorted lines without xvc\'s time-stamped banner',
         'local storage is created with an absolute path (relative path: known finding)',
     ]
-    n = 90 if quick else 1300
+    n = 90 if quick else 1000
     cases = [dict(c) for c in CORPUS]
     # systematic part: every family x every depth, shapes rotated; then random
     k = 0
